@@ -534,6 +534,8 @@ type Query struct {
 	Goal  *Term // to be proved (negated in the script); nil means "check satisfiability of the lines" (cover)
 	Reveal map[string]bool
 	Lemmas []*LemmaInst
+	TimeoutMs int // 0: portfolio default
+	NoAxioms  bool
 }
 
 // LemmaInst: a proved lemma instantiated by the generator at every ground application of its trigger symbol.
@@ -642,16 +644,34 @@ func (q *Query) Render(produceModels bool) string {
 			}
 		}
 		for i, a := range u.Axioms {
-			if axIncluded[i] {
+			if axIncluded[i] || q.NoAxioms {
 				continue
 			}
 			inc := a.Always
 			if !inc {
-				// an axiom is relevant when all... (heuristic) any of its function symbols is needed
-				for s := range axSyms[i] {
-					if need[s] {
-						inc = true
-						break
+				// an axiom with patterns is relevant when every uninterpreted symbol of one of its patterns is needed;
+				// an axiom without patterns when any of its symbols is needed
+				pats := axiomPatterns(a.T)
+				if len(pats) > 0 {
+					for _, ps := range pats {
+						all := true
+						for s := range ps {
+							if !need[s] {
+								all = false
+								break
+							}
+						}
+						if all {
+							inc = true
+							break
+						}
+					}
+				} else {
+					for s := range axSyms[i] {
+						if need[s] {
+							inc = true
+							break
+						}
 					}
 				}
 			}
@@ -854,6 +874,9 @@ func (q *Query) Render(produceModels bool) string {
 			collect(t.Args[0], nb)
 			return
 		}
+		if t.Kind == KApp && strings.HasPrefix(t.Op, "Sl$") && strings.HasSuffix(t.Op, "$len") && len(t.Args) == 1 && !mentionsBound(t.Args[0], bound) {
+			hints["(assert (>= "+t.String()+" 0)) ; type invariant: slice length"] = true
+		}
 		if t.Kind == KApp && t.Op == "str.contains" && t.Args[1].Kind == KStrLit && len(t.Args[1].Str) == 1 && !mentionsBound(t.Args[0], bound) {
 			x, c := t.Args[0].String(), t.Args[1].String()
 			hints[fmt.Sprintf("(assert (=> (str.contains %s %s) (and (<= 0 (str.indexof %s %s 0)) (< (str.indexof %s %s 0) (str.len %s)) (= (str.at %s (str.indexof %s %s 0)) %s))))", x, c, x, c, x, c, x, x, x, c, c)] = true
@@ -864,7 +887,7 @@ func (q *Query) Render(produceModels bool) string {
 	}
 	collect(q.Goal, nil)
 	for i, l := range q.Lines {
-		if included[i] && l.Kind == LAssume {
+		if included[i] && l.T != nil {
 			collect(l.T, nil)
 		}
 	}
@@ -941,4 +964,23 @@ func mentionsBound(t *Term, bound map[string]bool) bool {
 		}
 	}
 	return false
+}
+
+// axiomPatterns returns, for each pattern of a top-level quantified axiom, the set of uninterpreted symbols it mentions.
+func axiomPatterns(t *Term) []map[string]bool {
+	if t.Kind != KQuant || len(t.Pats) == 0 {
+		return nil
+	}
+	var out []map[string]bool
+	for _, p := range t.Pats {
+		m := map[string]bool{}
+		for _, x := range p {
+			x.symbols(m)
+		}
+		for _, v := range t.Bound {
+			delete(m, v.Name)
+		}
+		out = append(out, m)
+	}
+	return out
 }
